@@ -65,7 +65,7 @@ def write_dataset(d, ds, naming='ks', col1=False, id_dtype=np.int32, time_dtype=
         np.save(d / names['sc'], vec(ds['sc'], id_dtype))
     if ds.get('amps') is not None:
         np.save(d / names['amps'], vec(ds['amps'], ds.get('aux_dtype', np.float64)))
-    np.save(d / names['chmap'], vec(ds['chmap'], np.int32))
+    np.save(d / names['chmap'], vec(ds['chmap'], ds.get('chmap_dtype', np.int32)))
     np.save(d / names['pos'], np.asarray(ds['pos'], dtype=np.float64))
     if ds.get('shanks') is not None:
         np.save(d / names['shanks'], vec(ds['shanks'], np.int32))
@@ -91,7 +91,7 @@ def write_dataset(d, ds, naming='ks', col1=False, id_dtype=np.int32, time_dtype=
         a = np.asarray(arr)
         np.save(d / ('spike_%s.npy' % name), np.asfortranarray(a) if (ds.get('aux_fortran') and a.ndim == 2) else a)
     for fname, text in (tsv or {}).items():
-        (d / fname).write_text(text)
+        (d / fname).write_bytes(text.encode('utf-8'))       # (bytes: keeps \r\n and a BOM as they are)
     ncdat = int(ds.get('ncdat') or len(ds['chmap']))      # raw channel count (may exceed the channel map)
     dat = None
     if ds.get('raw') is not None:
